@@ -531,7 +531,9 @@ def step {σ} (q : Quirks) (S : Schema) (a : Alloc σ) (st : St σ) (op : Op) : 
         -- `_on_add` (relation first), then the item goes into the container — unless the relation raised
         let (st, ws, wt) := ensure2 a st xs xt
         let st := addFact q S a S.fuel st f ws wt false
-        if st.err then st else { st with h := st.h.write S f s t }
+        -- (an inferred relation on a SCALAR field — a scalar inverse, super-property or role-taker field — may have
+        -- overwritten the only reference to an instance: CPython frees it at once, so this branch collects as well)
+        if st.err then st else { st with h := (st.h.write S f s t).collect q }
     | _, _ => st
   | .mkq k c dom =>
     if st.h.qvars.any (fun v => v.key == k) then st
@@ -700,7 +702,7 @@ def specStep (q : Quirks) (S : Schema) (s : Spec) (op : Op) : Spec :=
       | _ =>
         let s := (s.ensure xa).ensure xb
         let s := s.assert S f ⟨xa.obj, xa.cls⟩ ⟨xb.obj, xb.cls⟩
-        { s with h := s.h.write S f a b }
+        ({ s with h := (s.h.write S f a b).collect q }).prune
     | _, _ => s
   | .mkq k c dom =>
     if s.h.qvars.any (fun v => v.key == k) then s
